@@ -273,9 +273,39 @@ func ruleM7(c *Ctx, verifierOnly bool) {
 			}
 		}
 	})
+	folded, _, foldErr := c.foldedWeightTables(w)
 	check := func(name string, wantLen int64) {
 		t := tables[name]
 		key := "writer:" + name
+		// exact, when the constructor folds: the table's length and which of its positions were assigned (an
+		// out-of-range store would have stopped the folding)
+		if tbl, ok := folded[name]; ok && foldErr == nil {
+			var problems []string
+			if int64(tbl.len) != wantLen {
+				problems = append(problems, fmt.Sprintf("length is %d, not %d", tbl.len, wantLen))
+			}
+			var missing []string
+			for p := 0; p < tbl.len; p++ {
+				if tm, isT := tbl.o.slots[tbl.off+p].(*fterm); !isT || tm.op == "0" {
+					missing = append(missing, fmt.Sprint(p))
+				}
+			}
+			if len(missing) > 0 {
+				show := missing
+				if len(show) > 6 {
+					show = append(show[:6:6], "...")
+				}
+				problems = append(problems, fmt.Sprintf("%d of its %d entries are never written and stay zero: positions %s", len(missing), tbl.len, strings.Join(show, ",")))
+			}
+			if t == nil {
+				t = &table{name: name}
+				tables[name] = t
+			}
+			t.length = int64(tbl.len)
+			c.Check(len(problems) == 0, "M7", key, w.Pos(), fmt.Sprintf("table %s (readers index it up to %d): %s [by constant folding of the constructor]", name, wantLen-1, strings.Join(problems, "; ")),
+				fmt.Sprintf("length %d; every position written (constant folding of the constructor)", tbl.len))
+			return
+		}
 		if t == nil {
 			c.Und("M7", key, w.Pos(), "table "+name+" is not built by NewPrecomputedWeights as a make + indexed stores")
 			return
